@@ -995,6 +995,16 @@ func genMatch(r *rand.Rand, i int) Scenario {
 		}
 		sc.Ops = append(sc.Ops, Op{Op: "match", Seg: 1 + r.Intn(4), Pairs: pairs})
 	}
+	// long lists (more than 128 entries, cycling through the vocabulary) that end in an unknown field / an absent term
+	if len(vocab) > 0 {
+		long := []Pair{}
+		for k := 0; k < 140+r.Intn(60); k++ {
+			long = append(long, vocab[(k*7+r.Intn(3))%len(vocab)])
+		}
+		sc.Ops = append(sc.Ops, Op{Op: "match", Seg: 1 + r.Intn(4), Pairs: append(append([]Pair{}, long...), Pair{"nosuchfield", B([]byte("x"))})},
+			Op{Op: "match", Seg: 1 + r.Intn(4), Pairs: append(append([]Pair{}, long...), Pair{vocab[0].Field, B([]byte("absent-term"))})},
+			Op{Op: "match", Seg: 3, Pairs: append([]Pair{{"nosuchfield", B([]byte("x"))}}, long...)})
+	}
 	// a known field, then the same unknown field twice - the second time with a term that exists in the known field
 	for k := 0; k < 3 && len(fnames) > 0; k++ {
 		f := fnames[r.Intn(len(fnames))]
@@ -1970,6 +1980,27 @@ func genIterShare(r *rand.Rand, i int) Scenario {
 			Op{Op: "pl_open", Seg: seg, Field: "a", Term: B([]byte("y")), Pl: 61}, Op{Op: "it_open", Pl: 61, It: 70, Prealloc: 70, Freq: true, Norm: true, Locs: true}, Op{Op: "it_next_last"},
 			Op{Op: "pl_open", Seg: seg, Field: []string{"a", "nosuchfield"}[(i/4)%2], Term: B([]byte("zzz")), Pl: 62}, Op{Op: "it_open", Pl: 62, It: 71, Freq: true, Norm: true, Locs: true},
 			Op{Op: "it_next", It: 71}, Op{Op: "it_next", It: 71}, Op{Op: "it_next", It: 70}, Op{Op: "it_next", It: 70}, Op{Op: "it_count", It: 71})
+	}
+	if i%3 == 0 {
+		// an iterator that read locations on one segment is recycled on a segment whose field with the SAME id has
+		// another name: the locations must carry the second segment's names
+		mk2 := func(f string, base int) Batch {
+			b := make(Batch, 3)
+			for d := range b {
+				id := []byte(fmt.Sprintf("n%d", base+d))
+				b[d] = Doc{{Name: "_id", Len: 1, Stored: true, Value: B(id), Terms: []TermOcc{{Term: B(id), Freq: 1, Locs: []Loc{}}}},
+					{Name: f, Len: 2, Value: Bytes{}, Terms: []TermOcc{{Term: B([]byte("x")), Freq: 2, Locs: []Loc{{Field: "", Pos: 1 + d, Start: d, End: d + 1}, {Field: "", Pos: 5 + d, Start: 9, End: 12 + d}}}}}}
+			}
+			return b
+		}
+		sc.Batches = append(sc.Batches, mk2("alpha", 0), mk2("beta", 10))
+		sc.Universe = append(sc.Universe, "alpha", "beta")
+		nb := len(sc.Batches)
+		sc.Ops = append(sc.Ops, Op{Op: "build", Seg: 17, Batch: nb - 2, Mode: 0}, Op{Op: "build", Seg: 18, Batch: nb - 1, Mode: 0},
+			Op{Op: "pl_open", Seg: 17, Field: "alpha", Term: B([]byte("x")), Pl: 85}, Op{Op: "it_open", Pl: 85, It: 95, Freq: true, Norm: true, Locs: true},
+			Op{Op: "it_next", It: 95}, Op{Op: "it_next", It: 95},
+			Op{Op: "pl_open", Seg: 18, Field: "beta", Term: B([]byte("x")), Pl: 86}, Op{Op: "it_open", Pl: 86, It: 95, Prealloc: 95, Freq: true, Norm: true, Locs: true},
+			Op{Op: "it_next", It: 95}, Op{Op: "it_next", It: 95}, Op{Op: "it_next", It: 95}, Op{Op: "it_next", It: 95})
 	}
 	if i%4 == 1 {
 		// ONE list and ONE iterator recycled through present, absent, absent, present terms: the iterator the second
